@@ -355,6 +355,8 @@ def advinit(run, fx, rule='LAZYFILL'):
         if x['k'] == 'UnaryOperator' and x['op'] == '-':
             v_ = fval(x['c'][0])
             return None if v_ is None else -v_
+        if x['k'] == 'CallExpr' and any(w in (x.get('fq') or '') for w in ('quiet_NaN', 'signaling_NaN', '__builtin_nan')):
+            return float('nan')
         return None
     # the comparison of a cache cell with a floating constant, in either polarity and either operand order
     sent = []
@@ -363,6 +365,10 @@ def advinit(run, fx, rule='LAZYFILL'):
             for a_, b_ in ((e['c'][0], e['c'][1]), (e['c'][1], e['c'][0])):
                 if fval(b_) is not None and adv.strip_all_casts(adv.N(a_))['k'] in ('ArraySubscriptExpr', 'UnaryOperator', 'DeclRefExpr'):
                     sent.append(fval(b_))
+    if any(v_ is not None and v_ != v_ for v_ in sent):
+        run.violated(rule, inst, adv.where(), 'Font::advance compares a cache cell with a NaN: a NaN compares unequal to everything, itself included, so the cell is never recognised as '
+                     'unfilled, the application\'s advance callback is never called and the NaN itself is returned as the glyph\'s advance -- every hinted advance and position is not finite')
+        return
     sent = sorted(set(sent))
     if len(sent) != 1 or sent[0] is None:
         run.broken(rule, inst, 'the sentinel comparison in Font::advance was not found', adv.where())
